@@ -281,6 +281,135 @@ def case_error(m, spec, eq, rec):
         rec('error.form', V(v), **(dict(info, got=str(ynew)[:300], documented=str(want)[:300]) if v != 'equal' else {}))
 
 
+def _cmp_env(d1, d2, sub2, eq, rec, tag, extra=None, sub1=None):
+    """every symbol defined on both sides has the same value (right side under sub2, left under sub1)"""
+    for s in d1.env:
+        if s in d2.env:
+            a = d1.env[s].xreplace(sub1) if sub1 else d1.env[s]
+            b = d2.env[s].xreplace(sub2) if sub2 else d2.env[s]
+            v, info = eq.check(a, b, extra=extra)
+            if v != 'equal':
+                rec(f'{tag}[{s}]', V(v), **dict(info, before=str(a)[:200], after=str(b)[:200]))
+                return False
+    rec(tag, 'discharged')
+    return True
+
+
+def case_iov(m, spec, eq, rec):
+    """add_iov: 'leave predictions unchanged at eta zero' (all occasions present in the data); remove_iov restores."""
+    sympy, pm, semeq = _W['sympy'], _W['pm'], _W['semeq']
+    occ, param, dist = spec
+    m2 = pm.add_iov(m, occ, list_of_parameters=[param], distribution=dist)
+    new = [n for n in m2.random_variables.etas.names if n not in m.random_variables.etas.names]
+    if not new:
+        rec('iov.new_etas', 'violated', detail='no eta added')
+        return
+    levels = sorted(set(m.dataset[occ].tolist()))
+    O = sympy.Symbol(occ)
+    dom = [sympy.Or(*[sympy.Eq(O, sympy.nsimplify(v)) for v in levels])]
+    d1, d2 = semeq.denote(m.statements), semeq.denote(m2.statements)
+    _cmp_env(d1, d2, {sympy.Symbol(n): 0 for n in new}, eq, rec, 'iov.neutral_at_eta0', extra=dom)
+    # each occasion has its own eta: on occasion k the parameter depends on one iov eta only and as exp/add of it
+    m3 = pm.remove_iov(m2)
+    r = _W['C07'].compare(m, m3, {}, [], eq)
+    bad = [(o, d) for o, vv, d in r if vv == 'violated']
+    rec('iov.remove_restores', 'violated' if bad else 'discharged', **(dict(first=bad[0][0], detail=bad[0][1]) if bad else {}))
+
+
+def case_ruv_iiv(m, spec, eq, rec):
+    """set_iiv_on_ruv: Y = F + EPS*W*exp(ETA_RV): the old observation with every epsilon scaled by exp(eta)."""
+    sympy, pm, semeq = _W['sympy'], _W['pm'], _W['semeq']
+    m2 = pm.set_iiv_on_ruv(m)
+    new = [sympy.Symbol(n) for n in m2.random_variables.etas.names if n not in m.random_variables.etas.names]
+    if len(new) != 1:
+        rec('ruv_iiv.new_eta', 'violated', new=[str(n) for n in new])
+        return
+    e = new[0]
+    d1, d2 = semeq.denote(m.statements), semeq.denote(m2.statements)
+    y = sympy.Symbol(str(list(m.dependent_variables)[0]))
+    eps = [sympy.Symbol(n) for n in m.random_variables.epsilons.names]
+    want = d1.env[y].xreplace({x: x * sympy.exp(e) for x in eps})
+    v, info = eq.check(d2.env[y], want)
+    rec('ruv_iiv.template', V(v), **(dict(info, got=str(d2.env[y])[:200], documented=str(want)[:200]) if v != 'equal' else {}))
+    _cmp_env(d1, d2, {e: 0}, eq, rec, 'ruv_iiv.neutral_at_eta0')
+    m3 = pm.remove_iiv(m2, str(e))
+    r = _W['C07'].compare(m, m3, {}, [], eq)
+    bad = [(o, d) for o, vv, d in r if vv == 'violated']
+    rec('ruv_iiv.remove_restores', 'violated' if bad else 'discharged', **(dict(first=bad[0][0], detail=bad[0][1]) if bad else {}))
+
+
+def case_time_varying(m, spec, eq, rec):
+    """set_time_varying_error_model(cutoff): before the cutoff every epsilon is scaled by the new theta, after it the
+    observation is unchanged."""
+    sympy, pm, semeq = _W['sympy'], _W['pm'], _W['semeq']
+    cutoff = spec
+    m2 = pm.set_time_varying_error_model(m, cutoff=cutoff)
+    th = [sympy.Symbol(n) for n in new_names(m, m2)]
+    if len(th) != 1:
+        rec('time_varying.new_theta', 'violated', new=[str(t) for t in th])
+        return
+    d1, d2 = semeq.denote(m.statements), semeq.denote(m2.statements)
+    y = sympy.Symbol(str(list(m.dependent_variables)[0]))
+    idv = sympy.Symbol(m.datainfo.idv_column.name)
+    eps = [sympy.Symbol(n) for n in m.random_variables.epsilons.names]
+    c = sympy.nsimplify(cutoff)
+    v, info = eq.check(d2.env[y], d1.env[y], extra=[idv >= c])
+    rec('time_varying.after_cutoff_unchanged', V(v), **(dict(info, got=str(d2.env[y])[:200]) if v != 'equal' else {}))
+    want = d1.env[y].xreplace({x: x * th[0] for x in eps})
+    v, info = eq.check(d2.env[y], want, extra=[idv < c])
+    rec('time_varying.before_cutoff_scaled', V(v), **(dict(info, got=str(d2.env[y])[:200], documented=str(want)[:200]) if v != 'equal' else {}))
+    _cmp_env(d1, d2, {th[0]: 1}, eq, rec, 'time_varying.neutral_at_theta1')
+
+
+def case_blq(m, spec, eq, rec):
+    """transform_blq(method, lloq): observations at or above LLOQ keep their function and are flagged 0; below LLOQ the
+    likelihood is PHI((LLOQ-F)/SD) (M3) or (PHI((LLOQ-F)/SD)-PHI(-F/SD))/(1-PHI(-F/SD)) (M4), SD**2 = Var(Y)."""
+    sympy, pm, semeq = _W['sympy'], _W['pm'], _W['semeq']
+    method, lloq = spec
+    m2 = pm.transform_blq(m, method=method, lloq=lloq)
+    d1, d2 = semeq.denote(m.statements), semeq.denote(m2.statements)
+    y = sympy.Symbol(str(list(m.dependent_variables)[0]))
+    dv = sympy.Symbol(m.datainfo.dv_column.name)
+    L = sympy.nsimplify(lloq)
+    S = sympy.Symbol
+    v, info = eq.check(d2.env[y], d1.env[y], extra=[dv >= L])
+    rec('blq.above_lloq_unchanged', V(v), **(dict(info, got=str(d2.env[y])[:200]) if v != 'equal' else {}))
+    flag = d2.env.get(S('F_FLAG'))
+    if flag is None:
+        rec('blq.f_flag', 'violated', detail='F_FLAG not defined')
+        return
+    v1, i1 = eq.check(flag, sympy.Integer(0), extra=[dv >= L])
+    v2, i2 = eq.check(flag, sympy.Integer(1), extra=[dv < L])
+    rec('blq.f_flag', V(v1) if v1 != 'equal' else V(v2), **(i1 if v1 != 'equal' else (i2 if v2 != 'equal' else {})))
+    eps = [sympy.Symbol(n) for n in m.random_variables.epsilons.names]
+    f = d1.env[y].xreplace({e: 0 for e in eps})
+    sd = d2.env.get(S('SD'))
+    if sd is None:
+        rec('blq.sd', 'inconclusive', what='no SD symbol')
+        return
+    PHI = sympy.Function('PHI')
+    z = {e: 0 for e in eps}
+    var = 0
+    for e in eps:
+        coef = d1.env[y].xreplace({**z, e: 1}) - f
+        sig = m.random_variables[e.name].get_variance(e.name)
+        var = var + coef ** 2 * sympy.sympify(sig)
+    # the symbols are real quantities: lets sympy cancel sqrt(x)**2 and Abs(x)**2 before the solver sees them
+    real = lambda ex: ex.xreplace({x: sympy.Symbol(x.name, real=True) for x in ex.free_symbols if x.is_Symbol})  # noqa: E731
+    v, info = eq.check(real(sd) ** 2, real(var))
+    rec('blq.sd_is_sd_of_y', V(v), **(dict(info, got=str(sd)[:200], documented=str(var)[:200]) if v != 'equal' else {}))
+    SDs = sympy.Symbol('SD__')
+    cumd = PHI((L - f) / SDs)
+    if method == 'm3':
+        want = cumd
+    else:
+        cumdz = PHI(-f / SDs)
+        want = (cumd - cumdz) / (1 - cumdz)
+    got = d2.env[y]
+    v, info = eq.check(got, want.xreplace({SDs: sd}), extra=[dv < L])
+    rec('blq.below_lloq_likelihood', V(v), **(dict(info, got=str(got)[:300], documented=str(want)[:300]) if v != 'equal' else {}))
+
+
 def case_rates(m, spec, eq, rec):
     sympy, pm, semeq = _W['sympy'], _W['pm'], _W['semeq']
     if spec == 'fo_abs':
@@ -331,7 +460,8 @@ def case_rates(m, spec, eq, rec):
 
 
 KINDS = dict(covariate=case_covariate, iiv=case_iiv, eta_transform=case_eta_transform, allometry=case_allometry,
-             error=case_error, rates=case_rates, iiv_existing=case_iiv_existing)
+             error=case_error, rates=case_rates, iiv_existing=case_iiv_existing,
+             iov=case_iov, ruv_iiv=case_ruv_iiv, time_varying=case_time_varying, blq=case_blq)
 
 
 def run_case(case):
@@ -391,6 +521,17 @@ def all_cases(thorough):
             cases.append((start, 'error', e))
         for r in ('fo_abs', 'zo_abs', 'transits1', 'transits3'):
             cases.append((start, 'rates', r))
+        occ = [c for c in ('FA1', 'VISI', 'OCC') if c in m.datainfo.names and not m.datainfo[c].drop][:1]
+        for o in occ:
+            etas = set(m.random_variables.etas.names)
+            with_eta = [p for p in params if {str(x) for x in m.statements.before_odes.full_expression(p).free_symbols} & etas]
+            for p in with_eta[: (2 if thorough else 1)]:
+                for dist in (('disjoint', 'joint') if thorough else ('disjoint',)):
+                    cases.append((start, 'iov', (o, p, dist)))
+        cases.append((start, 'ruv_iiv', None))
+        cases.append((start, 'time_varying', 1.5))
+        for meth in ('m3', 'm4'):
+            cases.append((start, 'blq', (meth, 0.1)))
     return cases
 
 
